@@ -60,8 +60,9 @@ def h_step(x, op, lazy=True, na=2):
     d2 = x.zint("delta2_us", 0, 10**9)  # further (non-decreasing) readings
     now1, now2 = c * 1000 + d1, c * 1000 + d1 + d2
     clock = ST.Clock(fixed=[x.dt_us(now1), x.dt_us(now2), x.dt_us(now2), x.dt_us(now2), x.dt_us(now2)])
+    loff = x.zint("local_utc_offset_min", -840, 840)  # the process's local time zone: datetime.now() is naive local time
     prev_dt = SQ.__dict__.get("datetime")
-    SQ.__dict__["datetime"] = S.SymDatetimeClass(clock)
+    SQ.__dict__["datetime"] = S.SymDatetimeClass(clock, loff)
     try:
         ds = be.make(x, {"A": A, "B": B}, lazy=lazy)
         st = ds.storage_strategy
@@ -77,8 +78,10 @@ def h_step(x, op, lazy=True, na=2):
             for i in range(w0):
                 conn.execute("INSERT INTO events(bucketrow, starttime, endtime, datastr) VALUES ((SELECT rowid FROM buckets WHERE id = 'B'), ?, ?, '{}')", [i, i])
             st.num_uncommitted_statements = n0
-        st.last_commit = x.dt_us(c * 1000)
+        # last flush at instant c, recorded the way commit() records it: datetime.now() (naive local time)
+        st.last_commit = ST.Clock(fixed=[x.dt_us(c * 1000)]) and S.SymDatetimeClass(ST.Clock(fixed=[x.dt_us(c * 1000)]), loff).now()
         clock.n = 0
+        clock.calls = []
         b = ds["A"]
         new = ST.sym_rows(x, "n", 2, ids=False)
         if op == "insert_one":
@@ -155,9 +158,8 @@ def h_step(x, op, lazy=True, na=2):
                 obl.append(("counter-bounded-by-batch-size", And(n1 <= LIMIT, n1 >= 0)))
                 # C18: whatever is still buffered when the write returns was buffered less than ~10 s after the
                 # most recent flush (for a single-statement write: issued > 10 s after the previous flush => durable)
-                last_reading = S.dt_us(clock.calls[-1]) if clock.calls else now1
-                age = last_reading - S.dt_us(st.last_commit)
-                obl.append(("flushed-when-last-flush-older-than-10s", Implies(w1 != 0, age <= (AGE_S + 1) * 10**6)))
+                # C18: an event write issued more than ~10 s (11 s) after the previous flush is durable on return
+                obl.append(("flushed-when-last-flush-older-than-10s", Implies(d1 > (AGE_S + 1) * 10**6, w1 == 0)))
                 # sensitivity: a recent flush and a low counter must NOT force a commit (the batching is real)
                 if op == "insert_one":
                     obl.append(("recent-flush-low-counter-keeps-buffering", Implies(And(d1 + d2 < AGE_S * 10**6, n0 < LIMIT - 1), w1 == w0 + 1)))
